@@ -876,7 +876,9 @@ def formula_grammar(table):
     grouped_mixture = grouped_mixture.setParseAction(convert_mixture)
 
     mixture << (compound | grouped_mixture)
-    formula = (compound | ungrouped_mixture | grouped_mixture)
+    # Note: try the mixtures before compound, otherwise the litre in "2L H2O@1"
+    # is looked up as an element symbol and the lookup error ends the parse.
+    formula = (ungrouped_mixture | compound | grouped_mixture)
     # Note: the default must not be a Formula object, since it would be shared
     # by every empty string parsed with this (cached) grammar.
     grammar = Optional(formula, default=None) + StringEnd()
